@@ -21,7 +21,7 @@ RULE = ('(a) dyadic float32 fields (all float32 operations of pack2d/unpack exac
         'grids 20-24 x 17-19; laid out per the format description by a reference encoder that packs every field with the LEAN '
         'model of pack2d (not the library); read by arlpackedbit: variable list, level list, times, and every field equal to '
         'what the bytes decode to (Lean unpack) and within one quantisation step of the encoded values; file size vs the Lean '
-        'layout arithmetic')
+        'layout arithmetic; input handed to pack2d as float32, as float64 that rounds to that float32 field, or as int8/16/32; in half of the file cases another packed file is opened before the first is read')
 TRUSTED_EXTRA = ['the scaling exponent must equal the exact rule floor(log2 RMAX) + 1 of the model for every input (the repaired '
                  'code takes it from the binary exponent; the former float32 logarithm was wrong at some exact powers of two)',
                  'arithmetic of pack2d/unpack is compared on dyadic inputs where float32 is exact; the '
